@@ -835,14 +835,17 @@ def smaller_projects(proj):
     return out
 
 
-def shrink(bindirs, root, proj, a, b, limit=400):
-    """greedy: keep removing a key / locale / namespace while runs a and b (format, order) still differ"""
+def shrink(bindirs, root, proj, a, b, limit=400, tokens=False):
+    """greedy: keep removing a key / locale / namespace while runs a and b (format, order) still differ;
+    [tokens]: the recorded difference is the generated token stream (the dumps agree), so the code generator is run too"""
     def differs(q, n):
         try:
-            ra = do_run(bindirs, root, q, a["fmt"], a["order"], "shr_a%d" % (n % 8), codegen=False)
-            rb = do_run(bindirs, root, q, b["fmt"], b["order"], "shr_b%d" % (n % 8), codegen=False)
+            ra = do_run(bindirs, root, q, a["fmt"], a["order"], "shr_a%d" % (n % 8), codegen=tokens)
+            rb = do_run(bindirs, root, q, b["fmt"], b["order"], "shr_b%d" % (n % 8), codegen=tokens)
         except core.Infra:
             return False
+        if tokens:
+            return ra["codegen"] != rb["codegen"]
         if a["fmt"] == b["fmt"]:
             return same_format_view(ra["dump"]) != same_format_view(rb["dump"])
         return cross_format_view(ra["dump"], ra["fmt"]) != cross_format_view(rb["dump"], rb["fmt"])
@@ -971,10 +974,12 @@ def _run(ctx, bindirs, ok, problems, root):
     if spec_fail:
         spec_fail.sort(key=lambda x: size_of(projects[x[0]]))
         pi, a, b, why = spec_fail[0]
-        small = shrink(bindirs, root, projects[pi], a, b)
-        ra = do_run(bindirs, root, small, a["fmt"], a["order"], "final_a", codegen=False)
-        rb = do_run(bindirs, root, small, b["fmt"], b["order"], "final_b", codegen=False)
-        obj = {"failing_input": {"project": small, "run_a": describe(small, ra), "run_b": describe(small, rb)},
+        tokens = "token stream" in why
+        small = shrink(bindirs, root, projects[pi], a, b, tokens=tokens)
+        ra = do_run(bindirs, root, small, a["fmt"], a["order"], "final_a", codegen=tokens)
+        rb = do_run(bindirs, root, small, b["fmt"], b["order"], "final_b", codegen=tokens)
+        obj = {"failing_input": {"project": small, "run_a": describe(small, ra), "run_b": describe(small, rb),
+                                 "difference": "generated token stream" if tokens else "dump"},
                "explanation": "the same translation content loaded twice (other key order / file format / process) gave different "
                               "results: " + why, "count": len(spec_fail), "original_size": size_of(projects[pi]), "shrunk_size": size_of(small)}
         known = [f for f in core.load_known("C10") if f.get("status") == "known"]
@@ -1059,12 +1064,21 @@ def replay(ctx, path):
 
     def order_of(s):
         return s if s in ("sorted", "reversed", "as-is") else tuple(eval(s))
-    ra = do_run(bindirs, root, proj, fi["run_a"]["format"], order_of(fi["run_a"]["key_order"]), "a", codegen=False)
-    rb = do_run(bindirs, root, proj, fi["run_b"]["format"], order_of(fi["run_b"]["key_order"]), "b", codegen=False)
+    tokens = fi.get("difference") == "generated token stream" or "token stream" in obj.get("explanation", "")
+    ra = do_run(bindirs, root, proj, fi["run_a"]["format"], order_of(fi["run_a"]["key_order"]), "a", codegen=tokens)
+    rb = do_run(bindirs, root, proj, fi["run_b"]["format"], order_of(fi["run_b"]["key_order"]), "b", codegen=tokens)
     for name, r in (("run A", ra), ("run B", rb)):
         print(name, json.dumps(describe(proj, r), indent=1, ensure_ascii=False)[:3000])
     same = (same_format_view(ra["dump"]) == same_format_view(rb["dump"])) if ra["fmt"] == rb["fmt"] else \
         (cross_format_view(ra["dump"], ra["fmt"]) == cross_format_view(rb["dump"], rb["fmt"]))
+    if tokens:
+        tsame = ra["codegen"] == rb["codegen"]
+        print("generated token streams are", "identical" if tsame else "DIFFERENT")
+        if not tsame:
+            ta_, tb_ = ra["codegen"] or "", rb["codegen"] or ""
+            i = next((k for k in range(min(len(ta_), len(tb_))) if ta_[k] != tb_[k]), min(len(ta_), len(tb_)))
+            print("  first difference at character %d:\n   A ...%s\n   B ...%s" % (i, ta_[max(0, i - 80):i + 80], tb_[max(0, i - 80):i + 80]))
+        same = same and tsame
     print("implementation: the two runs are", "identical" if same else "DIFFERENT")
     try:
         items = coq_cases(proj, (ra["trees"], ra["dump"]), (rb["trees"], rb["dump"]))
